@@ -394,6 +394,43 @@ def box_contract(kind, box, pts):
     return None
 
 
+def unitcell_contract(lengths, angles_deg):
+    """cell -> box vectors -> cell is the identity (documented inverse pair), the vectors have the documented
+    orientation (a along x, b in the xy plane) and enclose the requested angles (float64 recomputation)"""
+    ang = np.deg2rad(np.array(angles_deg, dtype=float))
+    v = np.asarray(struc.vectors_from_unitcell(*lengths, *ang))
+    if v.shape != (3, 3) or v[0, 1] != 0 or v[0, 2] != 0 or v[1, 2] != 0:
+        return f"vectors_from_unitcell: not the documented lower-triangular form: {v.tolist()}"
+    v64 = v.astype(float)
+    ln = np.linalg.norm(v64, axis=1)
+    if not np.allclose(ln, lengths, rtol=1e-5):
+        return f"box vector lengths {ln.tolist()} for the cell lengths {list(lengths)}"
+
+    def enclosed(x, y):
+        return np.rad2deg(np.arccos(np.dot(x, y) / (np.linalg.norm(x) * np.linalg.norm(y))))
+    got = [enclosed(v64[1], v64[2]), enclosed(v64[0], v64[2]), enclosed(v64[0], v64[1])]
+    if np.abs(np.array(got) - angles_deg).max() > 2e-3:
+        return f"box vectors enclose the angles {np.round(got, 4).tolist()} instead of {list(angles_deg)}"
+    back = struc.unitcell_from_vectors(v)
+    if not np.allclose(back[:3], lengths, rtol=1e-5) or np.abs(np.rad2deg(np.array(back[3:], dtype=float)) - angles_deg).max() > 2e-3:
+        return (f"unitcell_from_vectors(vectors_from_unitcell(cell)) = {[round(float(x), 4) for x in back[:3]]} "
+                f"{np.round(np.rad2deg(np.array(back[3:], dtype=float)), 4).tolist()} != cell")
+    return None
+
+
+CELL_LENGTHS = ((10.0, 10.0, 10.0), (10.0, 10.0, 200.0), (5.0, 300.0, 40.0), (1000.0, 3.0, 3.0))
+for lengths in CELL_LENGTHS:
+    for dev in itertools.product((0.0, 0.01, -0.05, 0.1, -0.5, 7.0), repeat=3):
+        angles = [90.0 + d for d in dev]
+        R.check("box helpers act by lattice vectors and are mutually inverse", "unit cell -> vectors -> unit cell",
+                {"lengths": list(lengths), "angles_deg": angles}, lambda lengths=lengths, angles=angles: unitcell_contract(lengths, angles))
+for it in range(N // 2):
+    lengths = tuple(float(x) for x in np.exp(rng.uniform(np.log(3), np.log(400), size=3)).round(3))
+    angles = [float(x) for x in (90 + rng.choice([-1, 1], size=3) * np.exp(rng.uniform(np.log(0.005), np.log(25), size=3))).round(4)]
+    R.check("box helpers act by lattice vectors and are mutually inverse", "unit cell -> vectors -> unit cell",
+            {"lengths": list(lengths), "angles_deg": angles}, lambda lengths=lengths, angles=angles: unitcell_contract(lengths, angles))
+
+
 for it in range(N // 2):
     for kind, box in boxes(rng):
         pts = rng.uniform(-25, 25, size=(5, 3))
